@@ -222,7 +222,12 @@ func run1(c Case) ev.Verdict {
 
 	s.pipe.CloseMode = c.CloseMode
 	rd := time.Duration(c.ReadDelayNS)
-	ctl := installOrder(c.Order)
+	patience := 2 * time.Second
+	if c.RealTime {
+		patience = 40 * time.Millisecond
+	}
+
+	ctl := installOrder(c.Order, patience)
 
 	defer uninstallOrder()
 
@@ -333,14 +338,16 @@ func run1(c Case) ev.Verdict {
 
 	select {
 	case <-closeDone:
-	case <-time.After(bound + 10*time.Second):
+	case <-time.After(bound + 10*time.Second + 4*patience):
 		s.pipe.Release()
 		ctl.releaseAll()
 
 		return ev.Fail("Close did not return within %v (virtual) in state %s (driver %s, transport close behaviour %s)", bound+10*time.Second, c.State, c.Driver, c.CloseMode)
 	}
 
-	if el := time.Since(t0); el > bound {
+	// time the closer itself spent parked by the harness does not count; a forced order can also
+	// delay the reader past the grace period, which only moves Close onto its forced path
+	if el := time.Since(t0) - ctl.parkedBy("cclose", "nclose"); el > bound {
 		s.pipe.Release()
 		ctl.releaseAll()
 
@@ -373,7 +380,7 @@ func run1(c Case) ev.Verdict {
 	if opRunning {
 		select {
 		case <-opDone:
-		case <-time.After(opTimeout(c) + bound):
+		case <-time.After(opTimeout(c) + bound + 4*patience): // the harness may have parked the operation itself
 			s.pipe.Release()
 			ctl.releaseAll()
 
@@ -387,8 +394,8 @@ func run1(c Case) ev.Verdict {
 	ctl.releaseAll()
 
 	feasible, infeasible := ctl.outcome()
-	if infeasible > 0 && feasible == 0 && len(c.Order) > 0 {
-		v.Infeasible = true
+	if infeasible > 0 {
+		v.Classes = append(v.Classes, "order-infeasible")
 	}
 
 	if feasible > 0 {
